@@ -28,9 +28,19 @@ type wireGen struct {
 	epoch uint64
 	caps  map[string]int
 	clean bool // mostly-valid stream: each field takes its valid shape with high probability
+	// single-defect stream: every field valid except the defectIndex-th one generated
+	directed    bool
+	calls       int
+	defectIndex int
 }
 
-func (g *wireGen) keepValid() bool { return g.clean && g.rng.Chance(93) }
+func (g *wireGen) keepValid() bool {
+	if g.directed {
+		g.calls++
+		return g.calls-1 != g.defectIndex
+	}
+	return g.clean && g.rng.Chance(93)
+}
 
 // bytesField returns a byte field of one of the shapes: absent, empty, short, exact, long, very long.
 func (g *wireGen) bytesField(exact int, valid byte) []byte {
@@ -219,7 +229,15 @@ func cmdWire(args []string) int {
 	idx := map[string]string{}
 	var cases []string
 	id := 0
+	lastReq := filepath.Join(cf.out, "last_request.txt")
 	guarded := func(what string, f func()) (panicked bool) {
+		// a panic in a goroutine of the instance (a scatter worker) cannot be recovered here: the
+		// request is written down first, so that a dying process leaves its failing input behind
+		w := what
+		if len(w) > 4000 {
+			w = w[:4000] + "..."
+		}
+		_ = os.WriteFile(lastReq, []byte(w), 0o644)
 		defer func() {
 			if x := recover(); x != nil {
 				panicked = true
@@ -232,14 +250,22 @@ func cmdWire(args []string) int {
 		f()
 		return false
 	}
-	for i := 0; i < nReq; i++ {
+	nDirected := nReq / 2
+	for i := 0; i < nReq+nDirected; i++ {
 		client := []string{"client1", "client1", "client1", "client2", "nobody", ""}[rng.Intn(6)]
 		ip := []string{"10.0.0.1", "10.9.9.9", ""}[rng.Intn(3)]
 		g.clean = rng.Chance(60)
 		if g.clean && rng.Chance(85) {
 			client = "client1"
 		}
-		stats[map[bool]string{true: "stream.mostly-valid", false: "stream.malformed"}[g.clean]]++
+		g.directed = i >= nReq
+		if g.directed {
+			// an otherwise valid request (or small batch) with exactly one field malformed
+			g.clean, g.calls, g.defectIndex, client, ip = true, 0, rng.Intn(30), "client1", "10.0.0.1"
+			stats["stream.single-defect"]++
+		} else {
+			stats[map[bool]string{true: "stream.mostly-valid", false: "stream.malformed"}[g.clean]]++
+		}
 		hctx := ctxWithClient(ctx, client, ip)
 		cl := fmt.Sprintf("(cl %s %s)", coqStr(client), coqStr(ip))
 		pre, err := inst.ReadStore(ctx)
@@ -265,14 +291,14 @@ func cmdWire(args []string) int {
 		mkAtt := func() (*pb.SignBeaconAttestationRequest, func(d *pb.SignBeaconAttestationRequest) string) {
 			acct, key, which := g.id()
 			r := &pb.SignBeaconAttestationRequest{Domain: g.domain()}
-			if !rng.Chance(5) {
+			if g.directed || !rng.Chance(5) {
 				r.Data = &pb.AttestationData{Slot: g.number(), CommitteeIndex: g.number(), BeaconBlockRoot: g.bytesField(32, 1)}
-				if !rng.Chance(5) {
+				if g.directed || !rng.Chance(5) {
 					s := g.number()
 					r.Data.Source = &pb.Checkpoint{Epoch: s, Root: g.bytesField(32, 2)}
-					if !rng.Chance(5) {
+					if g.directed || !rng.Chance(5) {
 						t := s + 1
-						if rng.Chance(20) {
+						if !g.directed && rng.Chance(20) {
 							t = g.number()
 						}
 						r.Data.Target = &pb.Checkpoint{Epoch: t, Root: g.bytesField(32, 3)}
@@ -324,6 +350,9 @@ func cmdWire(args []string) int {
 			if n == maxBatch {
 				n = 1 + rng.Intn(maxBatch)
 			}
+			if g.directed {
+				n = 2 + rng.Intn(3)
+			}
 			m := &pb.MultisignRequest{}
 			var renders []func(d *pb.SignRequest) string
 			for j := 0; j < n; j++ {
@@ -340,7 +369,7 @@ func cmdWire(args []string) int {
 				items = append(items, renders[j](r))
 			}
 			wreq = "(WMultisign " + coqList(items) + ")"
-			panicked = guarded(fmt.Sprintf("Multisign of %d", n), func() {
+			panicked = guarded(fmt.Sprintf("Multisign of %d: %s", n, wreq), func() {
 				res, err := inst.Handler.Multisign(hctx, d)
 				if err != nil {
 					states = []string{"rpc-error"}
@@ -372,6 +401,9 @@ func cmdWire(args []string) int {
 			if n == maxBatch {
 				n = 1 + rng.Intn(maxBatch)
 			}
+			if g.directed {
+				n = 2 + rng.Intn(3)
+			}
 			m := &pb.SignBeaconAttestationsRequest{}
 			var renders []func(d *pb.SignBeaconAttestationRequest) string
 			for j := 0; j < n; j++ {
@@ -388,7 +420,7 @@ func cmdWire(args []string) int {
 				items = append(items, renders[j](r))
 			}
 			wreq = "(WAttests " + coqList(items) + ")"
-			panicked = guarded(fmt.Sprintf("SignBeaconAttestations of %d", n), func() {
+			panicked = guarded(fmt.Sprintf("SignBeaconAttestations of %d: %s", n, wreq), func() {
 				res, err := inst.Handler.SignBeaconAttestations(hctx, d)
 				if err != nil {
 					states = []string{"rpc-error"}
@@ -405,7 +437,7 @@ func cmdWire(args []string) int {
 			if rng.Chance(30) {
 				r.Domain = mkDomain([]byte{0, 0, 0, 0}, 2)
 			}
-			if !rng.Chance(5) {
+			if g.directed || !rng.Chance(5) {
 				r.Data = &pb.BeaconBlockHeader{Slot: g.number(), ProposerIndex: g.number(), ParentRoot: g.bytesField(32, 1), StateRoot: g.bytesField(32, 2), BodyRoot: g.bytesField(32, 3)}
 			}
 			switch which {
